@@ -1011,7 +1011,9 @@ def run(ctx):
         with open(os.path.join(dump, "behaviours.json"), "w") as fh:
             json.dump(named, fh)
     if rt.invariant_violated:
-        if not nviol and not ctx.known_hits:
+        # (the known finding F5 is exempted inside ConfigTrace by KnownF5, so a TLC
+        # verdict is never explained by it)
+        if not nviol:
             ctx.violation("trace-invariant-" + rt.invariant_violated,
                           "TLC: %s is false on the recorded observations" % rt.invariant_violated, {"tlc_tail": rt.out[-3000:]})
         else:
@@ -1040,7 +1042,8 @@ def run(ctx):
     want = {
         "reps": lambda es: any(e["a"] == "Restart" and e["reps"] for e in es),
         "rejected": lambda es: any(e["a"] == "PostConfig" and e["res"] != "ok" for e in es),
-        "accepted": lambda es: any(e["a"] == "PostConfig" and e["res"] == "ok" for e in es),
+        "accepted": lambda es: any(e["a"] == "PostConfig" and e["res"] == "ok" and e["body"] != "R" and e["post"]["cfg"] != e["pre"]["cfg"]
+                                   and k + 1 < len(es) and es[k + 1]["a"] not in ("PostConfig", "Inject") for k, e in enumerate(es)),
     }
     names = ok_names[:30]
     for need in want.values():
